@@ -29,7 +29,7 @@ def free_join_limit(sc, tier):
     binary = os.path.join(sc, "freeh.test")
     build_test("freeh", binary, race=True, tags="")
     rc, out, wall = run_test(binary, "TestFree", env=dict(FREE_RUNS=80 if tier == "quick" else 3000), timeout=1500)
-    runs = sum(int(x) for x in re.findall(r"FREE(?:JOIN|UNITE|JOINV1|LIMIT) runs=(\d+)", out))
+    runs = sum(int(x) for x in re.findall(r"FREE(?:JOIN|UNITE|JOINV1|JOINV1HELD|LIMIT) runs=(\d+)", out))
     if runs == 0:
         raise Inconclusive("freeh driver died\n" + out[-3000:])
     leaks = re.findall(r"LEAK ([^\n]*)(?:\n(?!\s*---).*){0,12}", out)
